@@ -103,6 +103,31 @@ pub fn c11(o: &Opts) -> Outcome {
         cases += recs.len() as u64;
         if let Some(w) = c11_batch(&recs, size, 2) { return Outcome { cases, witness: Some(w) }; }
     }
+    // long records (beyond any block size a parallel walk might use), low-complexity content near the edges
+    {
+        let mut recs: Vec<Vec<u8>> = vec![vec![b'A'; 600], (0..1100).map(|i| b"AC"[i % 2]).collect(), (0..1300).map(|i| b"ATU"[i % 3]).collect(), vec![b'T'; 2049]];
+        for _ in 0..3 { let l = 1500 + rng.below(3000) as usize; recs.push(random_seq(&mut rng, l, 0)); }
+        for threads in [1usize, 4] {
+            cases += recs.len() as u64;
+            if let Some(w) = c11_batch(&recs, 16, threads) { return Outcome { cases, witness: Some(w) }; }
+        }
+    }
+    // records with no bases between ordinary records: one (empty) row each
+    {
+        let recs: Vec<Vec<u8>> = vec![b"ACGT".to_vec(), vec![], b"GGGTTTA".to_vec(), vec![], vec![], b"T".to_vec(), vec![]];
+        for threads in [1usize, 2, 4] {
+            cases += recs.len() as u64;
+            if let Some(w) = c11_batch(&recs, 8, threads) { return Outcome { cases, witness: Some(w) }; }
+        }
+    }
+    // rejection: every two-byte UTF-8 character (bytes >= 0x80) inside a nucleotide record
+    for lead in 0xC2u8..=0xDF {
+        for cont in (0x80u8..=0xBF).step_by(if o.thorough { 1 } else { 3 }) {
+            let s = vec![b'A', b'C', lead, cont, b'G', b'T'];
+            cases += 1;
+            if let Some(w) = c11_batch(&[s], 8, 1) { return Outcome { cases, witness: Some(w) }; }
+        }
+    }
     // rejection: one bad byte anywhere
     for b in [b'N', b'n', b'-', b'R', b'*', 0x80u8 as u8] {
         for pos in 0..4usize {
